@@ -883,6 +883,7 @@ package quickfix
 
 // SendAppMessages: the queue goes to the wire only in a logged-on state; otherwise it is dropped from the wire queue
 //@ func (sm *stateMachine) SendAppMessages [C02,C08]
+//@   nocall Reset
 //@   requires sessfull(session)
 //@   atcall sendQueued @loggedon !stnotlogged(session.State)
 //@   ensures sessfull(session)
@@ -973,6 +974,7 @@ package quickfix
 
 // Timeout dispatch: the state's Timeout decides the next state; leaving a connected state goes through setState
 //@ func (sm *stateMachine) Timeout [C08,C20]
+//@   nocall Reset
 //@   requires @sess sessfull(session) && sm == &session.stateMachine
 
 // Incoming: an inbound byte message is parsed and handed to the current state's handler (top of the inbound path)
